@@ -6,7 +6,6 @@ import epr_impl as ei
 import qmem_impl as qi
 
 CORPUS = os.path.join(os.path.dirname(os.path.dirname(os.path.dirname(os.path.abspath(__file__)))), "corpus", "C12")
-FINDING_KEY = "C12:request-outlives-its-subroutine"
 
 
 def jsonable(x):
@@ -97,8 +96,7 @@ class Runner:
 
 # ---------------------------------------------------------------------- generation
 class Gen:
-    """random event sequences that obey the environment contract: the last wait of every
-    subroutine covers its whole result array (issuer_alive), the response type of a
+    """random event sequences that obey the environment contract: the response type of a
     (remote, purpose) is the type of its requests (type_consistent), virtual ids in range,
     physical ids of keep responses fresh (C13's fresh_delivery), an application is stopped only
     when it has no outstanding request and no waiting subroutine"""
@@ -140,6 +138,10 @@ class Gen:
         def waits(res, n):
             full = ("WAll", res, 0, 10 * n)
             r = rng.random()
+            if r < 0.12:
+                # hand-written NetQASM: no wait (or only a partial one) after the request --
+                # the request outlives its subroutine
+                return [] if r < 0.07 else [("WAny", res, 0, 10 * n)]
             if r < 0.4:
                 return [full]
             if r < 0.6:
@@ -390,9 +392,6 @@ def shrink(runner, node, evs, text, pm="id"):
     return evs
 
 
-FINDING_EVENTS = [("Init", 0, 2),
-                  ("Create", 0, (1, 0), True, [0], 1, 0, 1, 2, []),          # hand-written: no wait after create_epr
-                  resp((1, 0), True, True, 1, 101)]
 
 
 def run(ctx):
@@ -400,13 +399,14 @@ def run(ctx):
                 "issuing create_epr / recv_epr (1-3 pairs, keep or measure, "
                 "1-3 sockets, both roles; own node id and remote node ids over {0,1,2,3} incl. remote 0 with own != 0; the network "
                 "stack's socket->purpose assignment is part of the scenario: identity, cross-connected sockets, offset) and then blocking "
-                "in wait_all / wait_any / wait_single (kept alive as generators), "
+                "in wait_all / wait_any / wait_single (kept alive as generators) -- or ending without a wait, so that the request "
+                "outlives its subroutine --, "
                 "fault injection: the network stack refuses chosen create requests (put raises, the subroutine ends at that "
                 "line) and the application re-issues them on the same socket; link-layer OK responses, as native tuples or as "
                 "qlink-interface 1.0 Res* objects, arriving before or after the matching instruction (also before ANOTHER "
                 "application's instruction, across a stop of a third one), retries of the pending list, "
                 "polls of waiting subroutines, qfree/qalloc that un-block / block deferred keep responses. Random sequences obey "
-                "the contract (last wait covers the result array; response type = request type per socket; ids in range; an "
+                "the contract (response type = request type per socket; ids in range; an "
                 "application is stopped only when nothing of it is outstanding); "
                 "small scenarios are enumerated in EVERY ordering. After every event: queues, pending list, arrays and unit modules of "
                 "all applications, live subroutines compared with the Coq model, and with an independent FIFO reference (oracle). "
@@ -421,8 +421,8 @@ def run(ctx):
                       "_handle_pending_epr_responses again (event Retry); the base class's own recursion is not a scheduler")
     ctx.assume.append("type_consistent: a response's type (K/M) is the type of the request it answers (per socket); the model accepts "
                       "an M response for a K request silently, as the code does (C12_type_mismatch_refuted)")
-    ctx.assume.append("issuer_alive: theorems are about fault-free runs; a response handled after its issuing subroutine ended "
-                      f"faults (C12_issuer_dead_refuted) -- reported as known finding {FINDING_KEY}")
+    ctx.assume.append("theorems are about fault-free runs (faults: virtual ids out of range, result arrays too short, an "
+                      "application stopped with requests outstanding); a request may outlive its subroutine (repaired, corpus)")
     ctx.assume.append("an application is stopped only when it has no outstanding request and no waiting subroutine (the SDK's close "
                       "flushes and waits first); the model and the code fault when a response is handled for a stopped application")
     ctx.assume.append("registers are per application and shared by concurrent subroutines: the harness gives every live subroutine "
@@ -486,7 +486,6 @@ def run(ctx):
     A = (1, 0)
     I2 = ("Init", 0, 2)
     bad_streams = [
-        (0, FINDING_EVENTS),
         (0, [I2, ("Create", 0, A, True, [0], 1, 0, 1, 2, [("WAll", 2, 0, 10)]), resp(A, True, False, 1, 1)]),      # M answer to K request
         (0, [I2, ("Create", 0, A, False, [], 1, 0, 1, 2, [("WAll", 2, 0, 10)]), resp(A, True, True, 1, 101)]),     # K answer to M request
         (0, [I2, ("Recv", 0, A, [5], 1, 0, 1, [("WAll", 1, 0, 10)]), resp(A, False, True, 1, 101)]),               # virtual id out of range
@@ -505,13 +504,6 @@ def run(ctx):
         malformed.append(("id", node, [root]))
         ctx.note_case(str(evs), True)
     groups += malformed
-
-    # ---- the recorded finding, replayed through the oracle every run
-    _, fl, faults = runner.run(0, FINDING_EVENTS, want_tree=False)
-    if fl:
-        ctx.violation("a response that arrives after the issuing subroutine has ended is never consumed: "
-                      "_handle_pending_epr_responses raises 'Unknown subroutine with ID n' and the response stays pending",
-                      dict(node=0, events=jsonable(FINDING_EVENTS), failures=[b for _, b in fl]), key=FINDING_KEY)
 
     # ---- model side
     files = {}
